@@ -178,32 +178,67 @@ func checkC14(w *World, r *Report) {
 		r.Check(val("Current") < val("Deprecated") && val("Deprecated") < val("Obsolete"), "R14.2", "status order", token.NoPos, "Current < Deprecated < Obsolete", "status constants are not ordered current < deprecated < obsolete")
 		gs := w.Method("compile", "Compiler", "getStatus")
 		fd, _ := w.FuncDecl(gs)
-		inh := paramObj(p, fd, 1)
 		ok, returnsOwn, returnsInh := false, false, false
-		var own types.Object
-		ast.Inspect(fd.Body, func(x ast.Node) bool {
-			is, isIf := x.(*ast.IfStmt)
-			if !isIf {
-				return true
+		if gf := w.SSAFunc(gs); gf != nil && len(gf.Params) == 3 && len(ssaLoops(gf)) == 0 {
+			inhP := ssa.Value(gf.Params[2])
+			sym := NewSym(w)
+			sym.Expand = false
+			ps := w.SSAFunc(w.Func("compile", "parseStatus"))
+			isOwn := func(v ssa.Value) bool {
+				c, isC := v.(*ssa.Call)
+				return isC && ps != nil && c.Call.StaticCallee() == ps
 			}
-			be, isB := ast.Unparen(is.Cond).(*ast.BinaryExpr)
-			if isB && be.Op == token.LSS && objOfIdent(p, be.Y) == inh && len(callsTo(p, is.Body, cerr)) == 1 {
-				ok = true
-				own = objOfIdent(p, be.X)
+			classify := func(a *pcAtom) string {
+				if a.op == token.EQL && a.x != nil && a.y != nil {
+					for _, pair := range [][2]ssa.Value{{a.x, a.y}, {a.y, a.x}} {
+						if c, isC := pair[0].(*ssa.Call); isC && c.Call.IsInvoke() && nm(c.Call.Method) == "ChildByType" && isNilConst(pair[1]) {
+							return "nostmt"
+						}
+					}
+				}
+				if a.op == token.LSS && a.x != nil && a.y != nil {
+					if isOwn(a.x) && a.y == inhP {
+						return "stronger" // own < inherited
+					}
+					if a.x == inhP && isOwn(a.y) {
+						return "weaker" // inherited < own
+					}
+				}
+				return ""
 			}
-			if isB && be.Op == token.GTR && objOfIdent(p, be.X) == inh && len(callsTo(p, is.Body, cerr)) == 1 {
-				ok = true
-				own = objOfIdent(p, be.Y)
+			errCond := pcZ
+			nErr := 0
+			for _, bl := range gf.Blocks {
+				for _, in := range bl.Instrs {
+					if c, isC := in.(*ssa.Call); isC && c.Call.StaticCallee() != nil && c.Call.StaticCallee().Object() == types.Object(cerr) {
+						nErr++
+						errCond = pcOrF(errCond, sym.PathCond(gf.Blocks[0], bl, nil))
+					}
+				}
 			}
-			return true
-		})
-		for _, ret := range returnsIn(fd.Body) {
-			if own != nil && objOfIdent(p, ret.Results[0]) == own {
-				returnsOwn = true
+			sawStronger := false
+			for _, a := range errCond.atoms() {
+				sawStronger = sawStronger || classify(a) == "stronger"
 			}
-			if objOfIdent(p, ret.Results[0]) == inh {
-				returnsInh = true
+			ok = nErr > 0 && sawStronger && pcCompare(errCond, classify, func(env map[string]bool) bool { return !env["nostmt"] && env["stronger"] }) == ""
+			// what is handed back: the written status when there is one, else the inherited one
+			good := true
+			for _, row := range sym.retTable(gf, 0) {
+				if !pcSat(row.cond) {
+					continue
+				}
+				switch {
+				case isOwn(row.val):
+					returnsOwn = true
+					good = good && pcImplies(row.cond, classify, func(env map[string]bool) bool { return !env["nostmt"] }) == ""
+				case row.val == inhP:
+					returnsInh = true
+					good = good && pcImplies(row.cond, classify, func(env map[string]bool) bool { return env["nostmt"] }) == ""
+				default:
+					good = false
+				}
 			}
+			returnsOwn, returnsInh = returnsOwn && good, returnsInh && good
 		}
 		r.Check(ok && returnsOwn && returnsInh, "R14.2", "getStatus", fd.Pos(), "own < inherited ⇒ error; own if present else inherited", "a child may declare a status stronger (less obsolete) than its parent's, or the inherited status is not passed down")
 		ars := w.Method("compile", "Compiler", "assertReferenceStatus")
